@@ -367,7 +367,15 @@ class Emitter:
             members.append('struct %s base0;' % bcn)
         for f in inner(rec):
             if f.get('kind') == 'FieldDecl':
-                ft = self.ctype_of(qt(f))
+                try:
+                    ft = self.ctype_of(qt(f))
+                except ExtractError:
+                    # closure field of a lambda: the capture's type may be spelled with an alias template that the dump does not
+                    # desugar (e.g. a captured parameter pack); the captured variable's own type is the same type, desugared
+                    alt = getattr(self, 'closure_field_types', {}).get(f['id'])
+                    if alt is None:
+                        raise
+                    ft = self.ctype_of(alt)
                 nm = f.get('name') or ('_f%d' % len(members))
                 f['name'] = nm
                 self.tu.decls[f['id']] = f
@@ -1056,6 +1064,9 @@ class Emitter:
         init = init[-1] if init and d.get('init') else None
         if init is not None:
             self.mark_elided(init)
+            lam = self.find_lambda_expr(init)
+            if lam is not None:
+                self.prepare_lambda(lam)
         hook = self.opts.get('local_var')
         if hook:
             r = hook(self, d, t, init, ind, fn)
@@ -1829,6 +1840,26 @@ class Emitter:
                 return r
         return self.lambda_default(n)
 
+    def prepare_lambda(self, n):
+        """types of the closure fields as the captured variables have them (desugared), for closure records whose FieldDecls spell
+        the type with an alias template; must run before the closure struct is laid out"""
+        ii = inner(n)
+        if not ii or ii[0].get('kind') not in REC_KINDS:
+            return
+        rec = ii[0]
+        fields = [f for f in inner(rec) if f.get('kind') == 'FieldDecl']
+        caps = ii[1:len(fields) + 1]
+        self.closure_field_types = getattr(self, 'closure_field_types', {})
+        for f, c in zip(fields, caps):
+            ct = qt(c)
+            if ct:
+                self.closure_field_types[f['id']] = (ct + ' &') if self.is_ref_type(qt(f)) and not self.is_ref_type(ct) else ct
+
+    def find_lambda_expr(self, e):
+        while e is not None and e.get('kind') in ('ExprWithCleanups', 'MaterializeTemporaryExpr', 'CXXBindTemporaryExpr', 'ImplicitCastExpr', 'ParenExpr', 'CXXConstructExpr', 'CXXFunctionalCastExpr') and inner(e):
+            e = inner(e)[-1] if e.get('kind') != 'CXXConstructExpr' else inner(e)[0]
+        return e if e is not None and e.get('kind') == 'LambdaExpr' else None
+
     def lambda_default(self, n):
         ii = inner(n)
         rec = ii[0]
@@ -1843,14 +1874,15 @@ class Emitter:
             if not hasattr(self, 'lambda_canon'):
                 self.lambda_canon = {}
             self.lambda_canon[rec['id']] = canon['id']
-        cn = self.use_record(rec)
+        self.prepare_lambda(n)
         fields = [f for f in inner(rec) if f.get('kind') == 'FieldDecl']
         caps = ii[1:len(fields) + 1]
+        cn = self.use_record(rec)
         cmap = {}
         for i, (f, c) in enumerate(zip(fields, caps)):
             cc = c
-            while cc.get('kind') in ('ImplicitCastExpr', 'ParenExpr') and inner(cc):
-                cc = inner(cc)[0]
+            while (cc.get('kind') in ('ImplicitCastExpr', 'ParenExpr') or (cc.get('kind') == 'CXXConstructExpr' and len(inner(cc)) == 1)) and inner(cc):
+                cc = inner(cc)[0]      # a by-copy capture of a class-type variable is a copy construction from that variable
             byref = self.is_ref_type(qt(f))
             fname = f.get('name') or ('_f%d' % i)
             if cc.get('kind') == 'CXXThisExpr':
